@@ -26,4 +26,21 @@ def run():
     ok = res['bad'] == [(2, 'Cast.IsIntersection')] and res['consumed'] == 2
     print('PROTOCOL verdicts %s' % ('ok' if ok else 'FAILED: %r' % (res['bad'],)))
     bad += 0 if ok else 1
+    # the lexer machine: model-level theorems hold, the enumeration is complete, and longest match is not vacuous
+    from harness import lex
+    texts, r = lex.enumerate_texts(['n', 'o', 't', ' ', '1'], 4, cache=False)
+    want = sum(5 ** n for n in range(5))
+    facts = [len(texts) == want,
+             texts['not']['greedy'] == [['KW', 'not']], texts['nott']['greedy'] == [['NAME', 'nott']],
+             texts['no t']['greedy'] == [['NAME', 'no'], ['NAME', 't']], texts['1not']['adj'] is True,
+             texts['not1']['greedy'] == [['NAME', 'not1']]]
+    ok = all(facts)
+    print('MODEL %-17s %s (%d texts, %d states)' % ('HplLex', 'ok' if ok else 'FAILED: %r' % facts, len(texts), r['distinct']))
+    bad += 0 if ok else 1
+    ptexts, _ = lex.enumerate_texts(None, 0, given=['globally: no/go causes b within 100ms', 'after a as no: some ~p/q {x>1}'], prop=True)
+    g1 = [t[0] + ':' + t[1] for t in ptexts['globally: no/go causes b within 100ms']['greedy']]
+    ok = g1 == ['KW:globally', 'OP::', 'CHAN:no/go', 'KW:causes', 'CHAN:b', 'KW:within', 'NUM:100', 'UNIT:ms'] and \
+        [t[0] for t in ptexts['after a as no: some ~p/q {x>1}']['greedy']] == ['KW', 'CHAN', 'KW', 'NAME', 'OP', 'KW', 'CHAN', 'OP', 'NAME', 'OP', 'NUM', 'OP']
+    print('MODEL %-17s %s' % ('HplLex (property)', 'ok' if ok else 'FAILED: %r' % g1))
+    bad += 0 if ok else 1
     return 2 if bad else 0
